@@ -62,8 +62,30 @@ def nodes_of(q):
 
 def replay(case):
     q, sc = case["q"], case["sc"]
-    tabs = rel.make_tables(case["dseed"])
+    tabs = rel.make_tables(case["dseed"], wide=bool(case.get("parquet")))
     env = rel.dask_sources(tabs, {"T1": ("from_pandas", case["np1"]), "T2": ("from_pandas", case["np2"])})
+    scratch = None
+    if case.get("parquet"):
+        # T1 read from a multi-file parquet dataset that carries columns the query never uses: the reader projects and
+        # fuses several files into one task during optimization
+        import os
+        import tempfile
+        import dask_expr as dx
+        scratch = tempfile.mkdtemp(prefix="verif_c17.")
+        t1 = tabs["T1"]
+        n = len(t1)
+        for i in range(4):
+            t1.iloc[i * n // 4:(i + 1) * n // 4].to_parquet(os.path.join(scratch, f"part.{i}.parquet"))
+        env["T1"] = dx.read_parquet(scratch)[["a", "b", "k"]]
+    try:
+        return _replay(case, q, sc, env)
+    finally:
+        if scratch:
+            import shutil
+            shutil.rmtree(scratch, ignore_errors=True)
+
+
+def _replay(case, q, sc, env):
     try:
         whole = rel.build(q, env, "dask")
     except Exception as ex:
@@ -112,8 +134,8 @@ def replay(case):
         for kind in case["kinds"][:3]:
             try:
                 imp = do_cut(h, kind)
-                if imp.npartitions < 2:
-                    continue
+                if imp.npartitions < 2 or imp.npartitions != h.npartitions:
+                    continue        # the cut materialised a plan whose multi-file read was fused into fewer partitions (see F46)
                 import dask_expr as dx
                 a = dx.concat([imp.partitions[0], imp.partitions[imp.npartitions - 1]])
                 b = dx.concat([h.partitions[0], h.partitions[h.npartitions - 1]])
@@ -157,10 +179,12 @@ def run(tier="quick", seed=0, replay_path=None):
             c = json.load(f)["case"]
         cases = [{k: c[k] for k in ("q", "sc", "dseed", "np1", "np2")}]
         cases[0]["kinds"] = CUT_KINDS
+        cases[0]["parquet"] = c.get("parquet", False)
     else:
         qs = rel.gen_queries("general", 2, seed=seed, sample=t["sample"], sim_num=t["sim_num"], sim_depth=t["sim_depth"], chk=chk)
         qs = [c for c in qs if c["depth"] >= 2]
         cases = [{"q": c["q"], "sc": c["sc"], "dseed": rnd.randrange(5), "np1": rnd.choice([2, 3]), "np2": rnd.choice([1, 2]), "kinds": CUT_KINDS} for c in qs]
+        cases += [dict(c, parquet=True) for c in cases[: (40 if tier == "quick" else 400)]]
     for i, c in enumerate(cases):
         c["cid"] = i
     common.assert_repo()
@@ -191,7 +215,7 @@ def run(tier="quick", seed=0, replay_path=None):
             chk.note_nontrivial(common.case_hash([c["q"], ln["cutdepth"], ln["cutkind"]]))
         if ln["tid"] in rejects:
             chk.fail(rejects[ln["tid"]], {"q": c["q"], "sc": c["sc"], "dseed": c["dseed"], "np1": c["np1"], "np2": c["np2"], "ops": rel.ops_of(c["q"]),
-                                          "cutdepth": ln["cutdepth"], "cutkind": ln["cutkind"], "errmsg": ln["msg"]},
+                                          "cutdepth": ln["cutdepth"], "cutkind": ln["cutkind"], "errmsg": ln["msg"], "parquet": bool(c.get("parquet"))},
                      {"msg": ln["msg"], "schema_cut": ln["schema_cut"], "schema_uncut": ln["schema_uncut"], "div_cut": ln["div_cut"], "div_uncut": ln["div_uncut"]})
     chk.rule = ("programs = TLC-generated queries (QueryGen general) with >= 2 operators; every proper sub-collection (frame/series/index) is cut with " + ", ".join(CUT_KINDS) +
                 "; the rest of the program continues on the re-imported collection; additionally the first and last partition are selected on the imported node. "
